@@ -34,7 +34,7 @@ def build(d):
             r2 = None if roots is None else [None if r is None else (r // w, r % w) for r in roots]
             G.division_connected(s, IntArray2D(items, (h, w)), k, roots=r2, allow_empty_group=d["allow_empty"])
         else:
-            g = E.mk_graph(n, edges)
+            g = E.mk_graph(n, edges, d.get("history"))
             arg = IntArray1D(items) if form == "array1d" else items
             G.division_connected(s, arg, k, g, roots=roots, allow_empty_group=d["allow_empty"])
     finally:
@@ -83,7 +83,7 @@ def instances(tier, rng):
     maxk = 3 if tier == "quick" else 4
     for nm, n, es in gl:
         for k in range(1, maxk + 1):
-            if tier == "quick" and n >= 4 and k == 3 and hash(nm) % 2:
+            if tier == "quick" and n >= 4 and k == 3 and sum(map(ord, nm)) % 2:
                 continue
             for ae in (False, True):
                 for prim in (False, True):
@@ -94,6 +94,10 @@ def instances(tier, rng):
                         for ri, roots in enumerate(roots_all if (n <= 4 or tier == "thorough") else roots_all[:2]):
                             out.append(dict(name="%s/k%d/ae%d/pr%d/%s/r%d" % (nm, k, ae, prim, form, ri), form=form, n=n, edges=es,
                                             k=k, allow_empty=ae, primitive=prim, roots=roots, labels="vars"))
+        if len(es) >= 2:
+            for prim in (False, True):
+                out.append(dict(name="%s/k2/hist/pr%d" % (nm, prim), form="list", n=n, edges=es, k=2, allow_empty=False, primitive=prim,
+                                roots=None, labels="vars", history=len(es) // 2))
         if n <= 3:
             out.append(dict(name="%s/k2/expr" % nm, form="list", n=n, edges=es, k=2, allow_empty=False, primitive=False,
                             roots=None, labels="expr"))
